@@ -7,3 +7,6 @@ import XProofs.Properties.C10
 #print axioms Properties.C10.C10_disabled_knob_never_changed
 #print axioms Properties.C10.C10_rows_within_limits
 #print axioms Properties.C10.C10_rows_within_limits_active
+#print axioms Properties.C10.C10_step_within_max_step
+#print axioms Properties.C10.C10_trial_point_inside
+#print axioms Properties.C10.C10_consecutive_rows_within_max_step
